@@ -76,6 +76,14 @@ impl<TKey, TVal> PendingNode<TKey, TVal> {
     }
 }
 
+#[cfg(libp2p_verif)]
+impl<TKey, TVal> PendingNode<TKey, TVal> {
+    /// Verification hook: read access to the pending node.
+    pub(crate) fn verif_node(&self) -> &Node<TKey, TVal> {
+        &self.node
+    }
+}
+
 /// A `Node` in a bucket, representing a peer participating
 /// in the Kademlia DHT together with an associated value (e.g. contact
 /// information).
